@@ -12,3 +12,5 @@ import FeedVerif.Model.DateDriver
 import FeedVerif.Lemmas.Civil
 import FeedVerif.Props.C14
 import FeedVerif.Props.C09
+import FeedVerif.Model.EncDriver
+import FeedVerif.Props.C06
